@@ -157,12 +157,48 @@ fn program(a: Op, b: Op, variant: u8) {
     end_of_execution();
 }
 
+/// Sharing BY REFERENCE (what `std::thread::scope` gives): both threads get `&base`; each reads through it, clones
+/// through it and runs `op` on its clone (which it then drops).  variant 10: `base` is the only handle (count 1 when the
+/// two clones race); variant 11: main keeps a second handle to the same buffer.  After the joins main reads `base`
+/// (nobody may have written through it) and drops it.
+fn program_scoped(a: Op, b: Op, variant: u8) {
+    let base: &'static LeanString = Box::leak(Box::new(LeanString::from(TEXT)));
+    let keep = if variant == 11 { Some(base.clone()) } else { None };
+    let work = move |op: Op| {
+        assert_eq!(base.as_str(), TEXT);
+        let c = base.clone();
+        run_op(c, op);
+        assert_eq!(base.len(), TEXT.len());
+    };
+    let ta = loom::thread::spawn(move || work(a));
+    let tb = loom::thread::spawn(move || work(b));
+    ta.join().unwrap();
+    tb.join().unwrap();
+    assert_eq!(base.as_str(), TEXT);
+    if let Some(k) = keep {
+        assert_eq!(k.as_str(), TEXT);
+        drop(k);
+    }
+    // SAFETY: both borrowers have been joined; `base` came from Box::leak above
+    drop(unsafe { Box::from_raw(base as *const LeanString as *mut LeanString) });
+    end_of_execution();
+}
+
+const SCOPED_OPS: [Op; 7] = [Op::Read, Op::CloneDrop, Op::Push, Op::Remove, Op::Truncate, Op::ShrinkTo, Op::Clear];
+
 fn programs() -> Vec<(String, Op, Op, u8)> {
     let mut v = Vec::new();
     for variant in 0..3u8 {
         for (i, a) in OPS.iter().enumerate() {
             for b in OPS.iter().skip(i) {
                 v.push((format!("{:?}|{:?}/v{}", a, b, variant), *a, *b, variant));
+            }
+        }
+    }
+    for variant in [10u8, 11] {
+        for (i, a) in SCOPED_OPS.iter().enumerate() {
+            for b in SCOPED_OPS.iter().skip(i) {
+                v.push((format!("&{:?}|&{:?}/v{}", a, b, variant), *a, *b, variant));
             }
         }
     }
@@ -193,7 +229,7 @@ fn main() {
             builder.preemption_bound = Some(preempt);
             builder.check(move || {
                 it2.fetch_add(1, std::sync::atomic::Ordering::Relaxed);
-                program(a, b, variant);
+                if variant >= 10 { program_scoped(a, b, variant) } else { program(a, b, variant) }
             });
         });
         let n = iters.load(std::sync::atomic::Ordering::Relaxed);
